@@ -397,6 +397,60 @@ Arguments LForEach {R} _.
 Arguments mkRow {R C} _ _ _ _ _.
 Arguments r_tid {R C} _.
 
+(* ------------------------------------------------------------------ macros *)
+
+(* parse_recipe_yaml.include_macro / parse_inclusions: `include: m` parses the YAML of macro m
+   AGAIN at every inclusion, so every inclusion gets StructuredValue / ObjectTemplate objects of
+   its own (the call-site identifier of an unnamed Dataset call is the id() of its
+   StructuredValue); the fields and friends of the macro go in front of the template's own.
+   A macro body is written once, its call sites and templates numbered locally; the objects
+   parsed for the inclusion with offset k carry the numbers k + local. *)
+Section Macros.
+Variable R : Type.
+
+Definition shift_sites (k : nat) (l : list (nat * dsref R)) : list (nat * dsref R) :=
+  map (fun sd => ((k + fst sd)%nat, snd sd)) l.
+
+Fixpoint shift_tmpl (k : nat) (t : tmpl R) : tmpl R :=
+  match t with
+  | Tmpl tid lp sites pass nested friends =>
+    Tmpl (k + tid) lp (shift_sites k sites) pass (shift_tmpls k nested) (shift_tmpls k friends)
+  end
+with shift_tmpls (k : nat) (ts : tmpls R) : tmpls R :=
+  match ts with
+  | TNil => TNil
+  | TCons t r => TCons (shift_tmpl k t) (shift_tmpls k r)
+  end.
+
+Fixpoint tapp (a b : tmpls R) : tmpls R :=
+  match a with TNil => b | TCons t r => TCons t (tapp r b) end.
+
+Record macro := mkMacro { m_sites : list (nat * dsref R); m_nested : tmpls R; m_friends : tmpls R }.
+
+(* template t says `include: m`; this inclusion's objects are numbered from k *)
+Definition include_macro (k : nat) (m : macro) (t : tmpl R) : tmpl R :=
+  match t with
+  | Tmpl tid lp sites pass nested friends =>
+    Tmpl tid lp (shift_sites k (m_sites m) ++ sites) pass
+         (tapp (shift_tmpls k (m_nested m)) nested) (tapp (shift_tmpls k (m_friends m)) friends)
+  end.
+
+(* the call sites written in a template tree *)
+Fixpoint tmpl_sids (t : tmpl R) : list nat :=
+  match t with
+  | Tmpl _ _ sites _ nested friends => map fst sites ++ tmpls_sids nested ++ tmpls_sids friends
+  end
+with tmpls_sids (ts : tmpls R) : list nat :=
+  match ts with
+  | TNil => []
+  | TCons t r => tmpl_sids t ++ tmpls_sids r
+  end.
+
+Definition macro_sids (m : macro) : list nat :=
+  map fst (m_sites m) ++ tmpls_sids (m_nested m) ++ tmpls_sids (m_friends m).
+End Macros.
+Arguments mkMacro {R} _ _ _.
+
 (* ------------------------------------------------------------------ arguments rendered per row *)
 
 (* The arguments of a Dataset.* field are rendered before the call, so ONE call site can name
@@ -469,6 +523,68 @@ Definition rec_col (r : rec) (i : nat) : option (list Z) := option_map render_ce
 
 Definition cell_eqb : cell -> cell -> bool := option_eqb (list_eqb Z.eqb).
 Definition rec_eqb : rec -> rec -> bool := list_eqb cell_eqb.
+
+(* ------------------------------------------------------------------ records: columns by name *)
+
+(* What a consuming row holds is a DatasetPluginResult: PluginResult.__init__ puts the mapping it is
+   given (csv.DictReader's dict(zip(header, row)) / dict(row._mapping) of a SQL row) into a
+   snowfakery/utils/collections.py CaseInsensitiveDict, and ${{row.Column}} is
+   PluginResult.__getattr__ = CaseInsensitiveDict.__getitem__.  The dictionary keeps
+   _store[fold(key)] = (key, value) with fold = str.lower; a Python dict keeps insertion order
+   and assigning to a key that is present keeps its place.  Column names are texts (code points);
+   `fold` is a parameter of the model: the theorems hold for every folding function, the
+   correspondence check is given the names folded by Python's str.lower. *)
+Definition name := list Z.
+Definition name_eqb : name -> name -> bool := list_eqb Z.eqb.
+
+Section CiRecord.
+  Variable V : Type.
+
+  Definition cidict := list (name * (name * V)).     (* folded key -> (key as written, value) *)
+
+  (* CaseInsensitiveDict.__setitem__ *)
+  Fixpoint cid_set (d : cidict) (fk k : name) (v : V) : cidict :=
+    match d with
+    | [] => [(fk, (k, v))]
+    | (fk', kv) :: r =>
+      if name_eqb fk' fk then (fk', (k, v)) :: r else (fk', kv) :: cid_set r fk k v
+    end.
+
+  (* CaseInsensitiveDict.__getitem__ (None: KeyError) *)
+  Fixpoint cid_get (d : cidict) (fk : name) : option V :=
+    match d with
+    | [] => None
+    | (fk', (_, v)) :: r => if name_eqb fk' fk then Some v else cid_get r fk
+    end.
+
+  (* CaseInsensitiveDict.items(): the keys as written with their values, in store order *)
+  Definition cid_items (d : cidict) : list (name * V) := map snd d.
+
+  (* MutableMapping.update: one __setitem__ per pair, in order; the pairs come with their folded key *)
+  Fixpoint cid_build (d : cidict) (l : list (name * (name * V))) : cidict :=
+    match l with
+    | [] => d
+    | (fk, (k, v)) :: r => cid_build (cid_set d fk k v) r
+    end.
+
+  Variable fold : name -> name.
+
+  Definition with_fold (l : list (name * V)) : list (name * (name * V)) :=
+    map (fun kv => (fold (fst kv), kv)) l.
+
+  (* the record made from the columns (name, value) of one dataset row, in header order *)
+  Definition record_of (l : list (name * V)) : cidict := cid_build [] (with_fold l).
+
+  (* ${{row.k}} *)
+  Definition record_get (d : cidict) (k : name) : option V := cid_get d (fold k).
+End CiRecord.
+Arguments cid_set {V} _ _ _ _.
+Arguments cid_get {V} _ _.
+Arguments cid_items {V} _.
+Arguments cid_build {V} _ _.
+Arguments with_fold {V} _ _.
+Arguments record_of {V} _ _.
+Arguments record_get {V} _ _ _.
 
 (* ------------------------------------------------------------------ the CSV record reader *)
 
@@ -757,7 +873,21 @@ Inductive case :=
 (* the unnamed Dataset.iterate field evaluations of a run in the order they happen: (call site,
    which of the datasets in tbl the rendered arguments name, repeat); the records of the rows that
    were written (a prefix of the evaluations) and how the run ended *)
-| CArgs (tbl : list (list rec)) (calls : list (nat * nat * bool)) (exp : list rec) (exp_err : option err).
+| CArgs (tbl : list (list rec)) (calls : list (nat * nat * bool)) (exp : list rec) (exp_err : option err)
+(* the records of a CSV file as the consuming rows see them: header (name folded by str.lower, name as
+   written), the records (cells in header order), names to look up (folded); per record the items the
+   implementation's record shows and what looking up every probe gives (None: no such column) *)
+| CRec (header : list (name * name)) (recs : list rec) (probes : list name)
+       (exp : list (list (name * cell) * list (option cell))).
+
+Definition rec_view (header : list (name * name)) (probes : list name) (r : rec)
+  : list (name * cell) * list (option cell) :=
+  let d := cid_build [] (map (fun hc => (fst (fst hc), (snd (fst hc), snd hc))) (combine header r)) in
+  (cid_items d, map (cid_get d) probes).
+
+Definition view_eqb (a b : list (name * cell) * list (option cell)) : bool :=
+  list_eqb (fun x y => name_eqb (fst x) (fst y) && cell_eqb (snd x) (snd y)) (fst a) (fst b) &&
+  list_eqb (option_eqb cell_eqb) (snd a) (snd b).
 
 Fixpoint calls_of (tbl : list (list rec)) (l : list (nat * nat * bool)) : option (list (acall rec)) :=
   match l with
@@ -797,4 +927,7 @@ Definition check_case (c : case) : bool :=
       | _, Some _ => true                            (* some other part of the recipe may have failed *)
       end
     end
+  | CRec header recs probes exp =>
+    forallb (fun r => Nat.eqb (length r) (length header)) recs &&
+    list_eqb view_eqb (map (rec_view header probes) recs) exp
   end.
